@@ -34,9 +34,17 @@ type vfC10Dialer struct {
 	srv   *vfC06Server
 	links []*vfC06Link
 	ctaps []*vfC06Tap
+	dead  bool
 }
 
 func (d *vfC10Dialer) Dial(network, address string) (net.Conn, error) {
+	d.mu.Lock()
+	dead := d.dead
+	d.mu.Unlock()
+	if dead {
+		// the case is over (client.MakeSession retries for ever after a failed handshake): park the retry loop
+		select {}
+	}
 	l := vfC06Connect(d.srv, false)
 	ct := &vfC06Tap{Conn: l.clientEnd}
 	d.mu.Lock()
@@ -131,12 +139,23 @@ func vfC10Run(id string, f []string) string {
 		sesh = client.MakeSession(remote, auth, d)
 		close(made)
 	}()
+	established := true
 	select {
 	case <-made:
-	case <-time.After(30 * time.Second):
-		return id + " ok=0 done=0 nconn=0 makesession=timeout"
+	case <-srv.redir.ch:
+		// the server did not take the real client's first packet for Cloak
+		established = false
+	case <-time.After(20 * time.Second):
+		established = false
 	}
-	ok := true
+	if !established {
+		d.mu.Lock()
+		d.dead = true
+		d.mu.Unlock()
+		time.Sleep(20 * time.Millisecond)
+		pattern = "none"
+	}
+	ok := established
 	switch pattern {
 	case "small":
 		s, err := sesh.OpenStream()
@@ -200,7 +219,9 @@ func vfC10Run(id string, f []string) string {
 	}
 	// let closing notices reach the wire, then close everything
 	time.Sleep(30 * time.Millisecond)
-	sesh.Close()
+	if sesh != nil {
+		sesh.Close()
+	}
 	time.Sleep(30 * time.Millisecond)
 	vfC06CloseSession(panel, uid, 0xC10)
 	time.Sleep(10 * time.Millisecond)
@@ -209,7 +230,7 @@ func vfC10Run(id string, f []string) string {
 	links := append([]*vfC06Link{}, d.links...)
 	ctaps := append([]*vfC06Tap{}, d.ctaps...)
 	d.mu.Unlock()
-	out := fmt.Sprintf("%s ok=1 done=%s nconn=%d name=%s", id, vfC06B(ok), len(links), vfC06Hex([]byte(name)))
+	out := fmt.Sprintf("%s ok=1 done=%s est=%s nconn=%d name=%s", id, vfC06B(ok), vfC06B(established), len(links), vfC06Hex([]byte(name)))
 	for i, l := range links {
 		_, wr, writes := l.tap.snapshot()
 		_, cwr, cwrites := ctaps[i].snapshot()
